@@ -272,6 +272,62 @@ def cases(rng, which, count):
                 cols = ["".join(rng.choice(c) for _ in range(nr)) for c in (rng.choice(pools) for _ in range(rng.randint(1, 14)))]
                 sr = [("s%d" % i, "".join(c[i] for c in cols)) for i in range(nr)]
                 yield Case("cli_lib", [esc(fasta(sr)), "stats"], True, "cli-stats-summary")
+            elif w == "divide":
+                # `divide`: one file per alignment of a multi-alignment Phylip input (or of the single FASTA one), groups
+                # of n rows numbered over all alignments, FASTA output forced, prefix; plain sequences with --unaligned
+                from driver import multigen
+                fl = []
+                if rng.random() < 0.6:
+                    fl += [rng.choice(["-o", "--output"]), rng.choice(["div", "out", "x.y", "a_b"])]
+                if rng.random() < 0.5:
+                    fl += ["--nb-sequences", str(rng.choice([0, 1, 2, 2, 3, 4, 7]))]
+                if rng.random() < 0.35:
+                    fl.append(rng.choice(["-f", "--out-fasta"]))
+                k = rng.random()
+                if k < 0.55:
+                    names = ["n%d" % i for i in range(rng.randint(1, 6))]
+                    als = multigen.alignments(rng, k=rng.randint(1, 4), names=names, alphabet=rng.choice(["ACGT", "ACGTacgtNRY", "ARNDCQEGHILKMFPSTWYV"]), lmin=1, lmax=70)
+                    txt = "".join(multigen.phylip(a) for a in als)
+                    q = rng.random()
+                    if q < 0.08:
+                        txt += " 2 3\nx  ACG\n"                     # a last alignment that ends too early
+                    elif q < 0.12:
+                        txt = ""
+                    fl.append(rng.choice(["-p", "--phylip"]))
+                    yield Case("cli_libf", [esc(txt), "_", "divide"] + fl, True, "cli-divide-phylip")
+                elif k < 0.8:
+                    yield Case("cli_libf", [st, "_", "divide"] + fl, True, "cli-divide-fasta")
+                else:
+                    sq = [("q%d" % i, "".join(rng.choice("ACGTN") for _ in range(rng.randint(1, 40)))) for i in range(rng.randint(1, 7))]
+                    yield Case("cli_libf", [esc(fasta(sq)), "_", "divide", "--unaligned"] + fl, True, "cli-divide-unaligned")
+            elif w == "identical":
+                # `identical -c file`: the same rows in another order, a changed residue / case / name, a row more or less
+                comp = list(rows)
+                k = rng.random()
+                if k < 0.35:
+                    rng.shuffle(comp)
+                elif k < 0.5:
+                    i = rng.randrange(n)
+                    j = rng.randrange(L)
+                    c = comp[i][1][j]
+                    comp[i] = (comp[i][0], comp[i][1][:j] + rng.choice([c.swapcase(), "A" if c != "A" else "C", "-" if c != "-" else "N"]) + comp[i][1][j + 1:])
+                elif k < 0.6:
+                    i = rng.randrange(n)
+                    comp[i] = (comp[i][0] + rng.choice(["x", "_"]), comp[i][1])
+                elif k < 0.7:
+                    comp.append(("more", comp[0][1]))
+                elif k < 0.8 and n > 1:
+                    comp.pop(rng.randrange(n))
+                elif k < 0.85:
+                    comp = [(nm, sq + "A") for nm, sq in comp]
+                elif k < 0.9:
+                    comp[0] = (comp[0][0], comp[0][1] + "A")            # not an alignment (when there is another row)
+                elif k < 0.93:
+                    i, j = rng.randrange(n), rng.randrange(n)
+                    comp[i] = (comp[j][0], comp[i][1])                  # a name twice (when i != j)
+                cfile = rng.choice(["c.fa", "other.fasta", "none.fa"])
+                argv = ["identical", rng.choice(["-c", "--compared"]), cfile if rng.random() < 0.95 else "missing.fa"]
+                yield Case("cli_libf", [st, cfile + "=" + esc(fasta(comp))] + argv, True, "cli-identical")
             elif w == "consensus":
                 fl = [f for f in ("--ignore-gaps", "--ignore-n") if rng.random() < 0.4]
                 yield Case("cli_lib", [st, "consensus"] + fl, True, "cli-consensus")
